@@ -60,10 +60,55 @@ def tokenize(src):
 _file_cache = {}
 
 
+def strip_verif_items(toks):
+    """drop every item guarded by #[cfg(brotli_verif)]: the models mirror the production code,
+    hooks must never shadow it (e.g. a wrapper `fn compress_part` inside `mod verif_hooks`)"""
+    out = []
+    i = 0
+    n = len(toks)
+    guard = ["#", "[", "cfg", "(", "brotli_verif", ")", "]"]
+    while i < n:
+        if [t[1] for t in toks[i:i + 7]] == guard:
+            j = i + 7
+            # skip further attributes
+            while j < n and toks[j][1] == "#":
+                d = 0
+                j += 1
+                while j < n:
+                    if toks[j][1] == "[":
+                        d += 1
+                    elif toks[j][1] == "]":
+                        d -= 1
+                        if d == 0:
+                            j += 1
+                            break
+                    j += 1
+            # skip one item: up to `;` at depth 0 or a balanced `{...}` block
+            d = 0
+            while j < n:
+                v = toks[j][1]
+                if v in ("(", "[", "{"):
+                    d += 1
+                elif v in (")", "]", "}"):
+                    d -= 1
+                    if d == 0 and v == "}":
+                        j += 1
+                        break
+                elif v == ";" and d == 0:
+                    j += 1
+                    break
+                j += 1
+            i = j
+            continue
+        out.append(toks[i])
+        i += 1
+    return out
+
+
 def tokens_of(relpath):
     if relpath not in _file_cache:
         with open(os.path.join(REPO, relpath), encoding="utf-8", errors="replace") as f:
-            _file_cache[relpath] = tokenize(f.read())
+            _file_cache[relpath] = strip_verif_items(tokenize(f.read()))
     return _file_cache[relpath]
 
 
